@@ -219,7 +219,7 @@ def splice(caller, bb, callee):
     stubs = []      # (callee block P, return block R, classification)
     # blocks
     for i, blk in enumerate(callee.blocks):
-        nb = {'stmts': [], 'cleanup': blk.get('cleanup', False)}
+        nb = {'stmts': [], 'cleanup': blk.get('cleanup', False), 'from': blk.get('from', callee.path)}
         for st in blk['stmts']:
             nb['stmts'].append(dict(st, dst=_shift_place(st['dst'], loff), rv=_shift_rv(st['rv'], loff)))
         t = blk['term']
@@ -1533,6 +1533,18 @@ def devirtualize(F):
     return n
 
 
+_BASELINE = None
+
+
+def _baseline():
+    global _BASELINE
+    if _BASELINE is None:
+        import json
+        p_ = os.path.join(os.path.dirname(os.path.abspath(__file__)), 'baseline_functions.json')
+        _BASELINE = set(json.load(open(p_))) if os.path.exists(p_) else set()
+    return _BASELINE
+
+
 def select(F):
     """{callee path: [(caller path, bb)]} of the helpers to splice"""
     anc = anchors()
@@ -1559,8 +1571,9 @@ def select(F):
                             # (or every call of it was resolved from a generic helper's receiver type: devirtualize)
         if 'generated_contracts' in cb.file or cb.path.split('::')[-1].startswith('test'):
             continue
-        if any(F.bodies[p].file != cb.file for p, _ in ss):
-            continue
+        if any(F.bodies[p].file != cb.file for p, _ in ss) and c in _baseline():
+            continue        # (a helper that did not exist when the rules were written is spliced wherever it lives: a new module
+                            # holding a cursor / view type is still an extracted helper)
         if any(p == c or p.startswith(c + '::{') for p, _ in ss):
             continue        # recursive
         # an async fn's body is a coroutine constructor: leave it
